@@ -13,4 +13,7 @@ def sumRange : Nat → (Nat → Rat) → Rat
   | 0, _ => 0
   | n+1, f => sumRange n f + f n
 
+/-- Python `sorted(l)` on a list of axis numbers -/
+def sortNat (l : List Nat) : List Nat := l.mergeSort (fun a b => decide (a ≤ b))
+
 end DadiVerif.FromPhi
